@@ -343,3 +343,134 @@ func TestVxC05CAS(t *testing.T) {
 			return nil
 		}})
 }
+
+// ---------------------------------------------------------------------------------------------
+// Conditional statements executed WITHOUT the CAS helpers (Exec, Iter + MapScan, Scan). Cassandra prepares
+// them with empty result metadata (the columns of the answer depend on whether the condition held), and, like
+// for every rows result, leaves the metadata out of the answer when the EXECUTE asked it to.
+
+type vxCondCase struct {
+	Proto    int    `json:"proto"`
+	Applied  bool   `json:"applied"`
+	Extra    int    `json:"extra"`    // columns of the existing row returned when the condition did not hold
+	Consumer string `json:"consumer"` // exec | mapscan | scan
+	NoSkip   bool   `json:"no_skip"`  // Query.NoSkipMetadata()
+	Twice    bool   `json:"twice"`    // the statement is executed a second time (prepared-statement cache hit)
+}
+
+func vxRunCond(c *vxCondCase, k *vstats.Case) error {
+	if c.Proto < 1 || c.Proto > 5 || c.Extra < 0 || c.Extra > 3 {
+		return nil
+	}
+	cols := []cqlspec.Column{{Keyspace: "ks1", Table: "t", Name: "[applied]", Type: cqlspec.Scalar(cqlspec.Boolean)}}
+	row := []cqlspec.Value{{Bool: c.Applied}}
+	if !c.Applied {
+		for i := 0; i < c.Extra; i++ {
+			cols = append(cols, cqlspec.Column{Keyspace: "ks1", Table: "t", Name: fmt.Sprintf("c%d", i), Type: cqlspec.Scalar(cqlspec.Int)})
+			row = append(row, cqlspec.I64Value(int64(100+i)))
+		}
+	}
+	cl := vnode.NewCluster(vxSpecs(1, 1))
+	var mu sync.Mutex
+	skipped := 0
+	cl.Nodes()[0].Handler = func(rc *vnode.ReqCtx) {
+		switch rc.Req.Kind {
+		case "PREPARE":
+			rc.Reply(&cqlspec.Response{Kind: "PREPARED", PreparedIDHex: "0c0d", Meta: &cqlspec.Metadata{Columns: []cqlspec.Column{}},
+				ResultMeta: &cqlspec.Metadata{NoMetadata: true, Columns: []cqlspec.Column{}}})
+		case "EXECUTE", "QUERY":
+			m := &cqlspec.Metadata{Columns: cols}
+			if rc.Req.Params != nil && rc.Req.Params.SkipMeta {
+				m.NoMetadata = true
+				mu.Lock()
+				skipped++
+				mu.Unlock()
+			}
+			rc.Reply(&cqlspec.Response{Kind: "ROWS", Meta: m, Rows: [][]cqlspec.Value{row}})
+		default:
+			rc.Reply(vxVoid())
+		}
+	}
+	s, err := vxClusterConfig(cl, c.Proto, nil).CreateSession()
+	if err != nil {
+		return fmt.Errorf("harness: CreateSession: %v", err)
+	}
+	defer s.Close()
+	runs := 1
+	if c.Twice {
+		runs = 2
+	}
+	for r := 0; r < runs; r++ {
+		q := s.Query("UPDATE t SET v = 1 WHERE k = 1 IF v = 0")
+		if c.NoSkip {
+			q = q.NoSkipMetadata()
+		}
+		what := fmt.Sprintf("conditional UPDATE (applied=%v, %d columns in the answer, protocol %d, run %d)", c.Applied, len(cols), c.Proto, r)
+		switch c.Consumer {
+		case "exec":
+			if err := q.Exec(); err != nil {
+				return fmt.Errorf("%s: Exec reports %v although the node answered with a well-formed rows result", what, err)
+			}
+		case "mapscan":
+			it := q.Iter()
+			m := map[string]interface{}{}
+			ok := it.MapScan(m)
+			if err := it.Close(); err != nil {
+				return fmt.Errorf("%s: Iter reports %v although the node answered with a well-formed rows result", what, err)
+			}
+			if !ok {
+				return fmt.Errorf("%s: MapScan found no row, the node sent one", what)
+			}
+			if a, isb := m["[applied]"].(bool); !isb || a != c.Applied {
+				return fmt.Errorf("%s: MapScan gives [applied]=%v (%T), the node sent %v; map %v", what, m["[applied]"], m["[applied]"], c.Applied, m)
+			}
+			for i := 1; i < len(cols); i++ {
+				if v, isi := m[cols[i].Name].(int); !isi || v != 100+i-1 {
+					return fmt.Errorf("%s: MapScan gives %s=%v, the node sent %d; map %v", what, cols[i].Name, m[cols[i].Name], 100+i-1, m)
+				}
+			}
+		default:
+			it := q.Iter()
+			var applied bool
+			ints := make([]int, len(cols)-1)
+			args := []interface{}{&applied}
+			for i := range ints {
+				args = append(args, &ints[i])
+			}
+			ok := it.Scan(args...)
+			if err := it.Close(); err != nil {
+				return fmt.Errorf("%s: Iter reports %v although the node answered with a well-formed rows result", what, err)
+			}
+			if !ok {
+				return fmt.Errorf("%s: Scan found no row, the node sent one", what)
+			}
+			if applied != c.Applied {
+				return fmt.Errorf("%s: Scan gives [applied]=%v", what, applied)
+			}
+			for i, v := range ints {
+				if v != 100+i {
+					return fmt.Errorf("%s: Scan gives %s=%d, the node sent %d", what, cols[i+1].Name, v, 100+i)
+				}
+			}
+		}
+	}
+	mu.Lock()
+	sk := skipped
+	mu.Unlock()
+	k.NonTrivial()
+	k.Class(fmt.Sprintf("conditional via %s, answers without metadata: %d", c.Consumer, sk))
+	return nil
+}
+
+func TestVxC04Conditional(t *testing.T) {
+	vx.Check(t, vx.Prop{
+		ID: "C04", Part: "TestVxC04Conditional",
+		Rule: "a conditional UPDATE executed without the CAS helpers (Exec, Iter+MapScan, Iter+Scan; once or twice; NoSkipMetadata or not), protocol 1..5; the node behaves like Cassandra: PREPARED carries empty result metadata (flag NO_METADATA, 0 columns), the rows answer has [applied] plus 0..3 columns of the existing row when the condition did not hold, and carries no metadata when the EXECUTE asked to skip it; oracle: no error for a well-formed answer, and the row read equals the row sent; every case is non-trivial; distinct by the case",
+		Draw: func(t *rapid.T) interface{} {
+			return &vxCondCase{Proto: rapid.IntRange(1, 5).Draw(t, "proto"), Applied: rapid.Bool().Draw(t, "applied"), Extra: rapid.IntRange(0, 3).Draw(t, "extra"),
+				Consumer: rapid.SampledFrom([]string{"exec", "mapscan", "scan"}).Draw(t, "consumer"), NoSkip: rapid.Bool().Draw(t, "noskip"), Twice: rapid.Bool().Draw(t, "twice")}
+		},
+		New: func() interface{} { return &vxCondCase{} },
+		Run: func(ci interface{}, k *vstats.Case) error { return vxRunCond(ci.(*vxCondCase), k) },
+	})
+}
